@@ -45,6 +45,10 @@ NII_DIR_ATOL = 5e-6
 VEC_RTOL = 2e-4   # float32 vector conversions (scale by n/2, rotate): as C01
 
 ASSUMPTIONS = [
+    "grids have at least 2 samples per axis: a multi-channel NIfTI image whose LAST grid axis has one sample (X, Y, 1 with C > 1) "
+    "is stored as a 5-D array X, Y, 1, 1, C that neither ITK nor deepali (which transcribes ITK's rule: trailing singleton axes of "
+    "vector images are dropped) can tell from a 2-D vector image; the round trip returns a 2-D image there — a limitation of the "
+    "format shared with SimpleITK (both readers agree), observed on the unchanged tree and recorded in NOTES_C18.md, not a finding",
     "voxel byte encoding (numpy tobytes/frombuffer, zlib, nibabel, ITK ImageIO) is trusted and only exercised; the model "
     "covers header grammar, field order, TransformMatrix layout, channel-axis shuffle, NIfTI affine / LPS<->RAS / axis order",
     "a number token of a MetaImage header carries its value: decimal rendering str(float32) / parsing float(str) is not "
